@@ -504,6 +504,8 @@ def factor_catalogue(rng: random.Random, n_names: int, flavour: str):
     rng.shuffle(names)
     a, b, c = names[0], names[1], names[2]
     d = names[3] if n_names > 3 else None
+    if flavour == "composite":
+        return sibling_family(rng, n_names)[1]
     if flavour == "samefirst":
         # `a` must be the first child in canonical order whatever the ordering: single-child leaves only, or a is the
         # smallest name among the children (name order == ordering level after _upgrade_ordering)
@@ -535,6 +537,59 @@ def factor_catalogue(rng: random.Random, n_names: int, flavour: str):
                     mk_leaf([d], [c], pop=POPS[0])]
     rng.shuffle(cat)
     return cat
+
+
+SIBLING_FAMILIES = ("sum_ranges", "sum_body_prod", "frac_den", "frac_num", "pop", "star", "prod_in_frac", "sum_of_sum",
+                    "iv_star")
+
+
+def sibling_family(rng: random.Random, n_names: int, family=None):
+    """(family, factors): composite factors that agree on everything except ONE deep position (the ranges of a sum, one
+    factor of a product under a sum, the denominator of a fraction, the population, a star ...): any sort key that ignores
+    that position leaves them tied, and the order of the canonical product then depends on the input order"""
+    family = family or rng.choice(SIBLING_FAMILIES)
+    names = list(range(n_names))
+    rng.shuffle(names)
+    a, b, c = names[0], names[1], names[2]
+    d = names[3] if n_names > 3 else c
+    L = [mk_leaf([a], [b]), mk_leaf([a], [c]), mk_leaf([b], [c]), mk_leaf([c], [b]), mk_leaf([a], [b, c]), mk_leaf([b], [a]),
+         mk_leaf([a], [b], pop=POPS[0]), mk_leaf([a], ivs=[[c, "m"]])]
+    if family == "sum_ranges":
+        body = rng.choice([mk_leaf([a], [b, c]), mk_prod([mk_leaf([a], [b]), mk_leaf([b], [c])]),
+                           ["frac", mk_leaf([a, b], [c]), mk_leaf([b], [c])]])
+        rs = [[b], [c], [b, c], [d]] if d not in (b, c) else [[b], [c], [b, c]]
+        fam = [["sum", [plain(n) for n in sorted(r)], body] for r in rs]
+    elif family == "sum_body_prod":
+        r = [plain(n) for n in sorted(rng.sample([b, c], rng.choice([1, 2])))]
+        pairs = rng.sample([(i, j) for i in range(len(L)) for j in range(i)], 4)
+        fam = [["sum", r, ["prod", L[i], L[j]]] for i, j in pairs]
+    elif family == "frac_den":
+        num = rng.choice(L)
+        fam = [["frac", num, x] for x in L if x != num][:4]
+    elif family == "frac_num":
+        den = rng.choice(L)
+        fam = [["frac", x, den] for x in L if x != den][:4]
+    elif family == "pop":
+        c_, p_ = rng.choice([([a], [b]), ([a], []), ([a, b], [c]), ([a, b], [])])
+        fam = [mk_leaf(c_, p_), mk_leaf(c_, p_, pop=POPS[0]), mk_leaf(c_, p_, pop=POPS[1])]
+        fam.append(["sum", [plain(c)], mk_leaf([a], [c], pop=POPS[0])])
+        fam.append(["sum", [plain(c)], mk_leaf([a], [c], pop=POPS[1])])
+    elif family == "star":
+        fam = [mk_leaf([cfv(a, star=s1)], [cfv(b, star=s2)]) for s1 in ("n", "m") for s2 in ("n", "m", "p")]
+    elif family == "prod_in_frac":
+        den = rng.choice(L)
+        pairs = rng.sample([(i, j) for i in range(len(L)) for j in range(i)], 4)
+        fam = [["frac", ["prod", L[i], L[j]], den] for i, j in pairs]
+        if rng.random() < 0.5:
+            fam = [["frac", den, x[1]] for x in fam]
+    elif family == "sum_of_sum":
+        inner = [["sum", [plain(b)], mk_leaf([a], [b, c])], ["sum", [plain(c)], mk_leaf([a], [b, c])]]
+        fam = [["sum", [plain(d)], ["prod", x, mk_leaf([d], [a])]] for x in inner] + inner
+    else:   # iv_star: same leaf, subscripts differing only in the star / in one name
+        fam = [mk_leaf([a], ivs=[[b, "m"]]), mk_leaf([a], ivs=[[b, "p"]]), mk_leaf([a], ivs=[[c, "m"]]),
+               mk_leaf([a], ivs=[[b, "m"], [c, "m"]]), mk_leaf([a], ivs=[[b, "m"], [c, "p"]])]
+    rng.shuffle(fam)
+    return family, fam
 
 
 def _leaf_all_names(t):
@@ -627,7 +682,7 @@ RATIO_TARGETS = ("xx", "xx", "xx", "x1", "1x", "shared", "repeat", "general")
 
 
 def _ratio_parts(rng: random.Random, n_names=4, flavour=None, target=None):
-    flavour = flavour or rng.choice(["mixed", "mixed", "samefirst", "worlds"])
+    flavour = flavour or rng.choice(["mixed", "mixed", "samefirst", "worlds", "composite"])
     target = target or rng.choice(RATIO_TARGETS)
     pool = factor_catalogue(rng, n_names, flavour)[: rng.choice([2, 3, 3, 4])]
     pick = lambda k: [rng.choice(pool) for _ in range(k)]  # noqa: E731
@@ -669,11 +724,15 @@ def struct_ratio_pair(rng: random.Random, n_names=4):
     return a, b, label
 
 
-def struct_product(rng: random.Random, n_names=4, flavour=None):
+def struct_product(rng: random.Random, n_names=4, flavour=None, family=None):
     """(expression, label): products whose factors tie on the first child name, contain One-like factors, and factors that
     become products only after canonicalisation ((x*y)/1, Sum over a one-like ...)"""
-    flavour = flavour or rng.choice(["samefirst", "samefirst", "mixed", "worlds"])
-    pool = factor_catalogue(rng, n_names, flavour)[: rng.choice([3, 4, 5, 6])]
+    flavour = flavour or rng.choice(["samefirst", "samefirst", "mixed", "worlds", "composite", "composite"])
+    if flavour == "composite" or family is not None:
+        fam, pool = sibling_family(rng, n_names, family)
+        flavour = "composite-" + fam
+    else:
+        pool = factor_catalogue(rng, n_names, flavour)[: rng.choice([3, 4, 5, 6])]
     fs = []
     for _ in range(rng.choice([2, 3, 3, 4, 5])):
         k = rng.random()
